@@ -793,12 +793,29 @@ func (b *ASTBuilder) buildNonlocalStatement(tsNode *sitter.Node) *Node {
 
 // buildExpressionStatement builds an expression statement node
 func (b *ASTBuilder) buildExpressionStatement(tsNode *sitter.Node) *Node {
+	// An expression statement normally wraps one expression; a bare expression
+	// list (`a, b`) has several children separated by commas. Build all of them
+	// (as a tuple), not only the first.
 	childCount := int(tsNode.ChildCount())
+	var exprs []*sitter.Node
 	for i := 0; i < childCount; i++ {
 		child := tsNode.Child(i)
-		if child != nil && !b.isTrivia(child) {
-			return b.buildNode(child)
+		if child != nil && !b.isTrivia(child) && child.Type() != "," {
+			exprs = append(exprs, child)
 		}
+	}
+	if len(exprs) == 1 {
+		return b.buildNode(exprs[0])
+	}
+	if len(exprs) > 1 {
+		node := NewNode(NodeTuple)
+		node.Location = b.getLocation(tsNode)
+		for _, e := range exprs {
+			if built := b.buildNode(e); built != nil {
+				node.AddChild(built)
+			}
+		}
+		return node
 	}
 
 	node := NewNode(NodeExpr)
